@@ -227,7 +227,8 @@ func init() {
 			cfg := randomCfg(r, "auth")
 			cfg.UseExpire = true
 			cfg.ExpireAfter = pickD(r, 2*time.Second, 90*time.Second, time.Hour, 37*time.Hour)
-			cfg.Whitelist = [][]string{nil, {"app_theme"}, {"app_theme", "app_lang", "app_cart"}}[r.Intn(3)]
+			// incl. application keys whose NAMES contain library key names (uid, twofactor, halfauth)
+			cfg.Whitelist = [][]string{nil, {"app_theme"}, {"app_theme", "app_lang", "app_cart"}, {"app_uid"}, {"app_theme", "app_twofactor_hint", "xhalfauthx"}}[r.Intn(5)]
 			var mods []string
 			for _, m := range cfg.Modules {
 				if m != "lock" && m != "confirm" { // keep logins unobstructed: this check is about idling
